@@ -9,7 +9,7 @@ for id in $ids; do
   d=seeded/$id; prop=${id%%-*}
   [ -f $d/patch.diff ] || continue
   if [ -n "$(git -C /repo status --porcelain)" ]; then echo "/repo not clean"; exit 2; fi
-  git -C /repo apply $d/patch.diff || { echo "$id apply-failed"; continue; }
+  git -C /repo apply /verif/$d/patch.diff || { echo "$id apply-failed"; continue; }
   start=$(date +%s)
   out=$(./check $prop --tier $tier 2>&1); rc=$?
   end=$(date +%s)
